@@ -37,6 +37,15 @@ static int k_gemv(const case_t *c, rng_t *rng, csc_t *G, int gemm)
     elem_t *x = xmalloc((nx + 1) * sizeof(elem_t)), *y = xmalloc((ny + 1) * sizeof(elem_t)), *y0 = xmalloc((ny + 1) * sizeof(elem_t));
     for (size_t i = 0; i < nx; ++i) x[i] = MKE(rng_sym(rng), rng_sym(rng));
     for (size_t i = 0; i < ny; ++i) y[i] = MKE(rng_sym(rng), rng_sym(rng));
+    {   /* exact zeros in the operands (sparse x, unit vectors, zero vector): code that skips zero entries is exercised */
+        int xz = (int)cint(c, "xzero", 0);
+        size_t unit = nx ? (size_t)rng_int(rng, nx) : 0;
+        for (size_t i = 0; i < nx && xz; ++i) {
+            int z = xz == 1 ? rng_u01(rng) < 0.4 : xz == 2 ? (i != unit) : xz == 3 ? 1 : (i == 0);
+            if (z) x[i] = MKE(0, 0);
+        }
+        if (cint(c, "yzero", 0)) for (size_t i = 0; i < ny; ++i) if (rng_u01(rng) < 0.5) y[i] = MKE(0, 0);
+    }
     memcpy(y0, y, ny * sizeof(elem_t));
     uint64_t hA = csc_hash(G), hx = fnv(x, nx * sizeof(elem_t), FNV0);
     SuperMatrix A;
